@@ -2,6 +2,8 @@ package main
 
 import (
 	"encoding/hex"
+	"encoding/json"
+	"os"
 	"fmt"
 	"strings"
 
@@ -458,6 +460,98 @@ func runC04(c *runCtx) {
 		}
 		for b := 0; b < 128; b++ {
 			corr([]byte("x" + o1 + string(rune(b)) + "y"))
+		}
+	}
+	// every keyword of the tokenizer's table in lower, upper and mixed case: same type, value as written
+	var lt struct {
+		Keywords []struct {
+			K string `json:"k"`
+			V int    `json:"v"`
+		} `json:"keywords"`
+		CompoundTypes []struct {
+			K string `json:"k"`
+			V int    `json:"v"`
+		} `json:"compound_types"`
+	}
+	if raw, err := os.ReadFile(verifDir + "/gen/lex_tables.json"); err == nil {
+		_ = json.Unmarshal(raw, &lt)
+	}
+	res.stat(fmt.Sprintf("keywords-from-table:%d", len(lt.Keywords)))
+	mixed := func(k string) string {
+		b := []byte(strings.ToLower(k))
+		for i := 0; i < len(b); i += 2 {
+			if b[i] >= 'a' && b[i] <= 'z' {
+				b[i] -= 32
+			}
+		}
+		return string(b)
+	}
+	for _, kw := range append(lt.Keywords, lt.CompoundTypes...) {
+		if len(strings.Fields(kw.K)) > 2 {
+			continue // three-word entries of the compound table are dead: the look-ahead reads one following word
+		}
+		var types []int
+		for _, sp := range []string{kw.K, strings.ToLower(kw.K), mixed(kw.K)} {
+			_, toks, _, err := corr([]byte(sp))
+			if err != nil || len(toks) != 2 {
+				res.fail("keyword-case", "a keyword spelt in another letter case is not read as one keyword token", map[string]any{"input": sp}, map[string]any{"got": kindsValues(toks)})
+				continue
+			}
+			types = append(types, int(toks[0].Token.Type))
+			if toks[0].Token.Value != sp {
+				res.fail("keyword-value", "a keyword token does not carry the text as written", map[string]any{"input": sp}, map[string]any{"got": toks[0].Token.Value})
+			}
+		}
+		for _, ty := range types {
+			if ty != kw.V {
+				res.fail("keyword-case", "the token type of a keyword depends on its letter case", map[string]any{"keyword": kw.K}, map[string]any{"types": types, "table": kw.V})
+				break
+			}
+		}
+	}
+	// exhaustive short strings over the characters the readers branch on
+	small := []byte("/*-\n'\"$a1.e `@\\<>=")
+	var enum func(prefix []byte, depth int)
+	enum = func(prefix []byte, depth int) {
+		corr(prefix)
+		if depth == 0 {
+			return
+		}
+		for _, ch := range small {
+			enum(append(append([]byte{}, prefix...), ch), depth-1)
+		}
+	}
+	enum(nil, c.n(3, 4))
+	for _, s := range []string{"/*/", "/*/*/", "a/*/b*/c", "/**/", "/***/", "/* * /", "--", "--\n", "-- x\r\n", "/*", "/* x", "a--b\nc", "a/*b\nc*/d", "--/*\n*/", "/*--*/x", "a -- /* \n b */"} {
+		corr([]byte(s))
+	}
+	// comment boundaries: the opener's own characters never take part in the terminator
+	for _, e := range []struct {
+		text     string
+		comments []string
+		toks     string
+	}{
+		{"/*/ x */ y", []string{"/*/ x */"}, "word:Y eof:"},
+		{"a /**/ b", []string{"/**/"}, "word:A word:B eof:"},
+		{"a /***/ b", []string{"/***/"}, "word:A word:B eof:"},
+		{"a /* * / */ b", []string{"/* * / */"}, "word:A word:B eof:"},
+		{"a --/*\nb */ c", []string{"--/*"}, "word:A word:B op:* op:/ word:C eof:"},
+		{"a /*--*/ b", []string{"/*--*/"}, "word:A word:B eof:"},
+		{"a -- x\r\nb", []string{"-- x\r"}, "word:A word:B eof:"},
+		{"a - - b", nil, "word:A op:- op:- word:B eof:"},
+		{"a / * b", nil, "word:A op:/ op:* word:B eof:"},
+	} {
+		_, toks, cms, err := corr([]byte(e.text))
+		if err != nil {
+			res.fail("comment-boundary", "a statement with comments is rejected", map[string]any{"input": e.text}, nil)
+			continue
+		}
+		var gotC []string
+		for _, cm := range cms {
+			gotC = append(gotC, cm.Text)
+		}
+		if strings.Join(gotC, "\x00") != strings.Join(e.comments, "\x00") || kindsValues(toks) != e.toks {
+			res.fail("comment-boundary", "comment boundaries are not the ones written", map[string]any{"input": e.text}, map[string]any{"comments": gotC, "tokens": kindsValues(toks), "want_comments": e.comments, "want_tokens": e.toks})
 		}
 	}
 	// (4) correspondence on bytes and corrupted statements
